@@ -56,10 +56,21 @@ Proof. exact lifecycle_over_histories. Qed.
 Print Assumptions C07_lifecycle.
 
 From Sge Require Import Model.Orderbook Gen.kernels Proofs.GenKernels.
-(* the status tests of the life cycle in the model ARE the Go methods of x/market/types/market.go (generated on every run) *)
+(* the status tests of the life cycle in the model ARE the Go methods of x/market/types/market.go, and the guard of a resolution
+   (result declared => not before the start, every winner is one of the market's outcomes) IS ticket.go ValidateWinnerOdds with its
+   nested loops; Market.HasOdds IS the membership test used when a wager names an outcome (generated on every run) *)
 Theorem C07_kernels_generated : forall mk,
   K_Market_IsUpdateAllowed (gm_of mk) = status_ai (k_status mk) /\
   K_Market_IsResolveAllowed (gm_of mk) = status_ai (k_status mk) /\
-  K_Market_IsResolved (gm_of mk) = status_resolved (k_status mk).
-Proof. intros. split; [reflexivity|]. split; [reflexivity|apply gen_market_resolved]. Qed.
+  K_Market_IsResolved (gm_of mk) = status_resolved (k_status mk) /\
+  (forall o, K_Market_HasOdds (gm_of mk) o = zmem o (k_odds mk)) /\
+  (forall uid rts winners status,
+     K_MarketResolutionTicketPayload_ValidateWinnerOdds
+       {| G_MarketResolutionTicketPayload_UID := uid; G_MarketResolutionTicketPayload_ResolutionTS := rts;
+          G_MarketResolutionTicketPayload_WinnerOddsUIDs := winners; G_MarketResolutionTicketPayload_Status := status |} (gm_of mk)
+     = negb ((status =? MK_DECLARED) && ((rts <? k_start mk) || negb (forallb (fun w => zmem w (k_odds mk)) winners)))).
+Proof.
+  intros. split; [reflexivity|]. split; [reflexivity|]. split; [apply gen_market_resolved|].
+  split; [intros; apply gen_HasOdds|intros; apply gen_ValidateWinnerOdds].
+Qed.
 Print Assumptions C07_kernels_generated.
